@@ -120,8 +120,8 @@ theorem reduce_res (c : RCtx) (L : Expr → Bool) : ∀ (x : Expr), isRes x = tr
       rw [reduce_stable c op l r hand hor h]
       simp [isRes, hop, h]
   | .paren e, h => by
-    simp only [isRes, Bool.and_eq_true] at h
-    have ih := reduce_res c L e h.1
+    simp only [isRes] at h
+    have ih := reduce_res c L e h
     rw [reduce]
     by_cases hb : (reduce c e).isBinary = true
     · simp [hb, isRes, evalB, ih.1, ih.2]
